@@ -84,9 +84,10 @@ def module_path(mod):
     return os.path.join(LEAN, mod.replace(".", "/") + ".lean")
 
 
-def audit(prop, modules, log):
+def audit(prop, modules, log, recheck=False):
     """Build the property modules and audit every theorem in them.
-    Returns (obligations:[name], broken:{name: reason})."""
+    Returns (obligations:[name], broken:{name: reason}).  With `recheck` (thorough tier) the compiled modules are
+    re-checked by `leanchecker`, the toolchain's independent checker of .olean files."""
     obligations, broken = [], {}
     spans = {}
     for mod in modules:
@@ -152,6 +153,13 @@ def audit(prop, modules, log):
     if bad:
         for n in obligations:
             broken.setdefault(n, "forbidden construct in sources: " + bad[0][:120])
+    if recheck and not broken:
+        rc, out = sh(["lake", "env", "leanchecker"] + list(modules), cwd=LEAN, timeout=3000)
+        log.append(f"[leanchecker {' '.join(modules)}] rc={rc}")
+        if rc != 0:
+            log.append(out[-2000:])
+            for n in obligations:
+                broken.setdefault(n, "leanchecker rejects the compiled module (rc=%d)" % rc)
     return obligations, broken
 
 
